@@ -44,6 +44,8 @@ var vConcreteKeyFamilies = [][]string{
 	// round; checked against the real hash when the pool is built) plus a bystander: everything keyed by the
 	// 64-bit hash (the batch's staging table, shard placement) must still tell them apart
 	{"user:0001/profil", "user:001\x1c\x87\x34\x82\xc7\x79\x31\x1e", "user:0021/profil"},
+	// family 6: 40-byte keys (longer than any header or reserve constant in the code: 7, 12, 27, 46, 70-key ...)
+	{"tenant/0000000000000000000000000000/key-a", "tenant/0000000000000000000000000000/key-b", "tenant/0000000000000000000000000000/key-c"},
 }
 
 func verifKeyPool0(p int, maxLen int) *vPool {
